@@ -26,6 +26,9 @@ type bctx struct {
 	paths  []PathSpec
 	groups []*jen.Group
 	keyIdx int
+	// frags: the recipe's fragments (private, or shared between Files in C09's share mode);
+	// a node of kind "shared" places fragment I itself (the same Code value) inside a tree
+	frags []*jen.Statement
 	// fileFunc[i]: group i is the body of a function declaration added directly to the
 	// File (so whatever is added to it later must show up in the File's next render)
 	fileFunc map[int]bool
@@ -68,6 +71,11 @@ func (c *bctx) build(n *Node) jen.Code {
 	switch n.K {
 	case "nil":
 		return nil
+	case "shared":
+		if len(c.frags) == 0 {
+			return jen.Null()
+		}
+		return c.frags[n.I%len(c.frags)]
 	case "id":
 		return jen.Id(n.S)
 	case "int":
@@ -474,6 +482,7 @@ func execBody(r *Recipe, env *Env, shared []*jen.Statement) (hist []Outcome) {
 		}
 		b.frags = append(b.frags, st)
 	}
+	ctx.frags = b.frags
 	f := b.file
 	for i, op := range r.Ops {
 		if env.UpTo >= 0 && i > env.UpTo {
